@@ -90,6 +90,14 @@ class C04(core.Prop):
                         s = gg.copy.deepcopy(base)
                         s['rings'] = [[a, b, k, 's'] for (a, b), k in zip(t, kinds)]
                         out.append(s)
+        # two rings one after the other: the second may reuse the marker of the first, in either spelling
+        for n, rr in ((5, [(0, 2), (2, 4)]), (6, [(0, 2), (3, 5)]), (5, [(0, 2), (1, 4)])):
+            chain = [b for b in gg.tree_shapes(n, max_nest=1) if len(b['chain']) == n][0]
+            for kinds in (('d', 'd'), ('d', 'p'), ('p', 'd')) if (n == 5 or tier != 'quick') else (('d', 'd'),):
+                for rords in (('s', 'n'), ('n', 's')):
+                    s = gg.copy.deepcopy(chain)
+                    s['rings'] = [[a, b, k, ro] for (a, b), k, ro in zip(rr, kinds, rords)]
+                    out.append(s)
         # annotations
         forms = [f for f in gg.ANN_FORMS if f != 'none']
         nann = 2 if tier == 'quick' else 3
@@ -165,3 +173,7 @@ class C04(core.Prop):
 
 
 PROP = C04()
+
+# shape families added after the first complete pass; appended to the bounds written into the evidence
+BOUNDS_ADDED = "; plus: two rings one after the other on 5-6 node chains (the second may reuse the first one's marker, in either spelling)"
+PROP.BOUNDS = {k: v + BOUNDS_ADDED for k, v in PROP.BOUNDS.items()}
